@@ -830,7 +830,9 @@ Qed.
 (* ---- a fourteenth program (stage 4h): function-valued constants.  c1 and c2 hold two closures returned by two calls
    of mkc: each keeps its own counter between the calls ----
      (mkc, adder, use2, app as in the thirteenth program)
+     gc :: mkc(100)                                              -- an outer definition
      start :: fn do
+       print(gc())  print(use2(gc))                              -- 101 1123
        c1 :: mkc(0)   c2 :: mkc(10)
        print(c1())  print(c1())  print(c2())  print(c1())        -- 1 2 11 3
        add3 :: adder(3)
@@ -843,7 +845,7 @@ Definition ex_prog14 : resolved :=
      mkVar 4 "app" sp0 true Const; mkVar 5 "start" sp0 true Const; mkVar 6 "== STACK ==" sp0 false Const;
      mkVar 7 "n" sp0 false Const; mkVar 8 "c" sp0 false Mutable; mkVar 9 "a" sp0 false Const; mkVar 10 "b" sp0 false Const;
      mkVar 11 "f" sp0 false Const; mkVar 12 "g" sp0 false Const; mkVar 13 "x" sp0 false Const;
-     mkVar 14 "c1" sp0 false Const; mkVar 15 "c2" sp0 false Const; mkVar 16 "add3" sp0 false Const]
+     mkVar 14 "c1" sp0 false Const; mkVar 15 "c2" sp0 false Const; mkVar 16 "add3" sp0 false Const; mkVar 17 "gc" sp0 true Const]
     [SExternalDefinition "print" 0 Const (TImplied sp0) sp0;
      SDefinition "mkc" 1 Const (TImplied sp0)
        (EFunction "lambda" [("n"%string, 7%N, sp0, tint)] tfn0
@@ -862,9 +864,12 @@ Definition ex_prog14 : resolved :=
      SDefinition "app" 4 Const (TImplied sp0)
        (EFunction "lambda" [("g"%string, 12%N, sp0, tfn1); ("x"%string, 13%N, sp0, tint)] tint
           [SStatementExpression (call 12 [ERead 13 sp0]) sp0] false sp0) sp0;
+     SDefinition "gc" 17 Const (TImplied sp0) (call 1 [EInt 100 sp0]) sp0;
      SDefinition "start" 5 Const (TImplied sp0)
        (EFunction "lambda" [] (TImplied sp0)
-          [SDefinition "c1" 14 Const (TImplied sp0) (call 1 [EInt 0 sp0]) sp0;
+          [SStatementExpression (call 0 [call 17 []]) sp0;
+           SStatementExpression (call 0 [call 3 [ERead 17 sp0]]) sp0;
+           SDefinition "c1" 14 Const (TImplied sp0) (call 1 [EInt 0 sp0]) sp0;
            SDefinition "c2" 15 Const (TImplied sp0) (call 1 [EInt 10 sp0]) sp0;
            SStatementExpression (call 0 [call 14 []]) sp0;
            SStatementExpression (call 0 [call 14 []]) sp0;
@@ -879,18 +884,18 @@ Definition ex_prog14 : resolved :=
 Example C01_example14_hypotheses :
   frag 30 ex_prog14 = true /\
   (exists code, lower 30 ex_prog14 = Ok code) /\
-  SyltSem.run 60 ex_prog14 = mkRun ["1"; "2"; "11"; "3"; "7"; "13"; "133"]%string ODone.
+  SyltSem.run 60 ex_prog14 = mkRun ["101"; "1123"; "1"; "2"; "11"; "3"; "7"; "13"; "133"]%string ODone.
 Proof. split; [vm_compute; reflexivity | split; [eexists; vm_compute; reflexivity | vm_compute; reflexivity]]. Qed.
 
 Theorem C01_function_constants_by_theorem code :
   lower 30 ex_prog14 = Ok code ->
   exists m, forall m', (m <= m')%nat ->
     let out := LuaCore.run_block Lua53 m' (chunk_ast code) in
-    o_trace out = ["1"; "2"; "11"; "3"; "7"; "13"; "133"]%string /\ o_final out = FDone.
+    o_trace out = ["101"; "1123"; "1"; "2"; "11"; "3"; "7"; "13"; "133"]%string /\ o_final out = FDone.
 Proof.
   intros Hl.
   assert (Hf : frag 30 ex_prog14 = true) by (vm_compute; reflexivity).
-  assert (Hr : SyltSem.run 60 ex_prog14 = mkRun ["1"; "2"; "11"; "3"; "7"; "13"; "133"]%string ODone) by (vm_compute; reflexivity).
+  assert (Hr : SyltSem.run 60 ex_prog14 = mkRun ["101"; "1123"; "1"; "2"; "11"; "3"; "7"; "13"; "133"]%string ODone) by (vm_compute; reflexivity).
   destruct (C01_fragment_preservation 30 ex_prog14 code 60 _ Hf Hl Hr I) as (m & Hm).
   exists m. intros m' Hle. specialize (Hm m' Hle). cbv zeta in *. destruct Hm as [Ht Hfin]. split; [exact Ht|].
   cbn [r_final] in Hfin. destruct (o_final _); try contradiction. reflexivity.
